@@ -5,6 +5,7 @@ import (
 	"go/ast"
 	"go/types"
 	"os"
+	"os/exec"
 	"path/filepath"
 	"sort"
 	"strings"
@@ -40,9 +41,38 @@ func shimOverlay() string {
 	return p
 }
 
+// moduleDeps lists the packages of 0chain.net and github.com/0chain/common that the patterns
+// depend on, so that callees in those packages have bodies (for inlining) too.
+func moduleDeps(patterns []string) []string {
+	args := append([]string{"list", "-overlay", shimOverlay(), "-tags", "verif", "-deps"}, patterns...)
+	cmd := exec.Command("go", args...)
+	cmd.Dir = repoMod
+	cmd.Env = append(os.Environ(), "GOFLAGS=", "GOPROXY=off", "GOSUMDB=off", "GOTOOLCHAIN=local", "GOWORK=")
+	out, err := cmd.Output()
+	if err != nil {
+		return patterns
+	}
+	seen := map[string]bool{}
+	var res []string
+	for _, l := range strings.Split(string(out), "\n") {
+		l = strings.TrimSpace(l)
+		if (strings.HasPrefix(l, "0chain.net/") || strings.HasPrefix(l, "github.com/0chain/common/")) && !seen[l] {
+			seen[l] = true
+			res = append(res, l)
+		}
+	}
+	for _, p := range patterns {
+		if !seen[p] {
+			res = append(res, p)
+		}
+	}
+	return res
+}
+
 // LoadProgram loads the given package patterns from /repo's working tree with the
 // grocksdb shim and -tags=verif, full syntax for the named packages only.
 func LoadProgram(patterns []string, extraOverlay map[string][]byte) (*Program, error) {
+	patterns = moduleDeps(patterns)
 	env := append(os.Environ(), "GOFLAGS=", "GOPROXY=off", "GOSUMDB=off", "GOTOOLCHAIN=local", "GOWORK=")
 	cfg := &packages.Config{
 		Mode:       packages.LoadSyntax | packages.NeedModule,
